@@ -24,6 +24,11 @@ pub struct ServerOpts {
     /// only used by fault-injecting scenarios with a relaxed oracle: the server closes connections
     /// gracefully (GOAWAY) after this age
     pub max_connection_age: Option<Duration>,
+    /// the application adds a tower layer of its own (`Server::layer`, here the identity layer)
+    /// after everything else has been configured: the settings made before it stay in force
+    pub user_layer: bool,
+    /// the listener reports this many transient accept errors before its first connection
+    pub accept_errors_first: u8,
 }
 
 #[derive(Clone, Debug, Default)]
@@ -116,19 +121,33 @@ where
     if let Some(a) = opts.max_connection_age {
         b = b.max_connection_age(a);
     }
-    let router = b.add_service(raw).add_service(echo).add_service(bare);
-    let incoming = incoming.map(move |io| {
+    let errs: Vec<Result<SimStream, std::io::Error>> = (0..opts.accept_errors_first)
+        .map(|k| Err(std::io::Error::new([std::io::ErrorKind::ConnectionAborted, std::io::ErrorKind::TimedOut, std::io::ErrorKind::ConnectionReset, std::io::ErrorKind::Interrupted][k as usize % 4], "simulated transient accept error")))
+        .collect();
+    let incoming = tokio_stream::iter(errs).chain(incoming).map(move |io| {
         if let (Some(f), Ok(io)) = (on_yield.as_mut(), &io) {
             f(io.conn_id());
         }
         io
     });
-    tokio::spawn(async move {
-        match shutdown {
-            Some(sig) => router.serve_with_incoming_shutdown(incoming, sig).await,
-            None => router.serve_with_incoming(incoming).await,
-        }
-    })
+    if opts.user_layer {
+        let mut b = b.layer(tower::layer::util::Identity::new());
+        let router = b.add_service(raw).add_service(echo).add_service(bare);
+        tokio::spawn(async move {
+            match shutdown {
+                Some(sig) => router.serve_with_incoming_shutdown(incoming, sig).await,
+                None => router.serve_with_incoming(incoming).await,
+            }
+        })
+    } else {
+        let router = b.add_service(raw).add_service(echo).add_service(bare);
+        tokio::spawn(async move {
+            match shutdown {
+                Some(sig) => router.serve_with_incoming_shutdown(incoming, sig).await,
+                None => router.serve_with_incoming(incoming).await,
+            }
+        })
+    }
 }
 
 pub fn endpoint(opts: &ClientOpts) -> Endpoint {
@@ -205,6 +224,8 @@ pub fn draw_h2_opts(sim: &Sim) -> (ServerOpts, ClientOpts) {
         if sim.chance(1, 3) {
             so.keepalive = Some((Duration::from_millis(sim.pick(&[300u64, 5_000])), Duration::from_secs(20)));
         }
+        so.user_layer = sim.chance(1, 2);
+        so.accept_errors_first = sim.pick(&[0u8, 0, 1, 3]);
         if sim.chance(1, 2) {
             co.concurrency_limit = Some(sim.pick(&[1usize, 3]));
         }
